@@ -9,7 +9,12 @@
        least significant sextet, unused trailing sextets filled with 077, top two bits set;
      - everything else is not inline-encodable.
 
-   A string is a sequence of byte values.  Nothing here is transcribed from char6.go. *)
+   A string is a sequence of byte values.  The arithmetic is written from that description, not
+   from encodeChar6 / decodeChar6.  The numbering of the alphabet (digits, lower case, upper
+   case, '_', '.') is the data constant char6ToByte of char6.go: the statement of C38 only asks
+   for a one-to-one encoding, so a disagreement on an exact id (class char6:encode / sweep:encode)
+   means "the numbering differs from this specification"; round trip, domain and injectivity
+   (char6:decode, char6:inline-domain, sweep:roundtrip) are the property itself. *)
 EXTENDS Integers, Sequences
 
 MaxInlined == 5
